@@ -327,3 +327,49 @@ func init() {
 	vHarness["VerifC09_IPV6CPReceive"] = VerifC09_IPV6CPReceive
 	vHarness["VerifC11_IPV6CPStep"] = VerifC11_IPV6CPStep
 }
+
+// A Configure-Reject lists only options of the request, byte for byte; a Configure-Nak only option types the
+// request carried. Request: one option of an arbitrary type (2..3 bytes) followed by an IP-Address option with an
+// arbitrary address, to the IPCP automaton in any state.
+func VerifC11_IPCPRejectContent() {
+	m, sent := verifIPCPAny("m")
+	first := []byte{ndU8("opt1.type"), 2}
+	if ndPick("opt1.len3", 2) == 1 {
+		first = []byte{first[0], 3, ndU8("opt1.data")}
+	}
+	second := append([]byte{IPCPOptIPAddress, 6}, ndBytes("addr", 4)...)
+	var opts []byte
+	if ndPick("order", 2) == 0 {
+		opts = append(append([]byte(nil), first...), second...)
+	} else {
+		opts = append(append([]byte(nil), second...), first...)
+	}
+	req := append([]byte{LCPCodeConfigRequest, ndU8("id"), 0, byte(4 + len(opts))}, opts...)
+	_ = m.ReceivePacket(req)
+	reqOpts, _ := verifRefOptions(opts)
+	for _, raw := range sent.pkts {
+		if len(raw) < 4 || (raw[0] != LCPCodeConfigReject && raw[0] != LCPCodeConfigNak) {
+			continue
+		}
+		got, ok := verifRefOptions(raw[4:])
+		vAssert(ok, "Nak/Reject carries a malformed option list")
+		for _, g := range got {
+			found := false
+			for _, r := range reqOpts {
+				if raw[0] == LCPCodeConfigReject {
+					found = found || (g.Type == r.Type && bytes.Equal(g.Data, r.Data))
+				} else {
+					found = found || g.Type == r.Type
+				}
+			}
+			if raw[0] == LCPCodeConfigReject {
+				vAssert(found, "Configure-Reject lists an option that is not an option of the request")
+			} else {
+				vAssert(found, "Configure-Nak lists an option type the request did not carry")
+			}
+		}
+	}
+	vReach("end")
+}
+
+func init() { vHarness["VerifC11_IPCPRejectContent"] = VerifC11_IPCPRejectContent }
